@@ -21,6 +21,7 @@ import (
 	"errors"
 	"fmt"
 	"math/rand"
+	"os"
 	"sort"
 	"strconv"
 	"strings"
@@ -40,7 +41,12 @@ import (
 	"github.com/mgtv-tech/redis-GunYu/syncer"
 )
 
-var schedKinds = []string{"none", "moved-between", "moved-mid", "ask", "back-forth", "node-added", refreshMidBuild}
+var schedKinds = []string{"none", "moved-between", "moved-mid", "ask", "back-forth", "node-added", refreshMidBuild, connReset}
+
+// connReset: not a migration but a connection fault on a cluster node: the node executes the
+// first k commands of a multi-megabyte node batch, stops reading and resets the connection while
+// the client is still writing; new connections are served normally (see resetPlan).
+const connReset = "conn-reset"
 
 // refreshMidBuild: the client's slot-table refresh is made to land between two Put calls of ONE
 // batch that touch the migrated slot (see midBuildPlan).
@@ -106,6 +112,13 @@ func genCase(i int, r *rand.Rand) caseCfg {
 		c.NCmds = 40 + r.Intn(80)
 		c.BufSize = 64 * 1024
 	}
+	if c.Sched == connReset {
+		// one flush must carry the whole big batch: no ticker may cut it while it is being parsed
+		c.BatchTicker, c.KeepAlive, c.CpTicker = 300*time.Millisecond, 300*time.Millisecond, 300*time.Millisecond
+		c.NCmds = 20 + r.Intn(40)
+		c.BufSize = 64 * 1024
+		c.MultiKey = false
+	}
 	return c
 }
 
@@ -166,8 +179,19 @@ type midBuild struct {
 	firstV, lastV string
 }
 
+// resetPlan describes the scripted part of a conn-reset stream.
+type resetPlan struct {
+	node     int   // the node whose connection is reset
+	offBig   int64 // start of the big batch
+	offTail  int64
+	batchLen int // commands of the big batch (= BatchCmdCount of the case)
+	k        int // the node executes k of them, then resets the connection
+	bytes    int
+}
+
 type workload struct {
 	mid    *midBuild
+	reset  *resetPlan
 	st     *gen.Stream
 	writes []*wr
 	byID   map[string]*wr
@@ -329,6 +353,43 @@ func genWorkload(r *rand.Rand, cc caseCfg, tags []*tagT, hist string) *workload 
 		default:
 			write(-1)
 		}
+	}
+	if cc.Sched == connReset {
+		// a node batch of 12–14 MB, all on keys of one node: far more than the loop-back socket
+		// buffers take in (measured here: at most ~5.5 MB beyond what the peer has read), so the
+		// client is certainly still writing when the node gives up after k×64 KiB
+		target := tags[r.Intn(len(tags))].node
+		var on []*tagT
+		for _, t := range tags {
+			if t.node == target {
+				on = append(on, t)
+			}
+		}
+		p := &resetPlan{node: target, offBig: int64(len(st.Bytes)), batchLen: 185 + r.Intn(30), k: 1 + r.Intn(12)}
+		pad := strings.Repeat("x", 64*1024)
+		for i := 0; i < p.batchLen; i++ {
+			id := fmt.Sprintf("~%s.%d~", hist, nextID)
+			nextID++
+			t := on[r.Intn(len(on))]
+			t.uses++
+			val := b(id + pad)
+			switch r.Intn(4) {
+			case 0:
+				emit("set", [][]byte{b(t.key("s1")), val}, []string{t.key("s1")}, id, -1)
+			case 1:
+				emit("append", [][]byte{b(t.key("s2")), val}, []string{t.key("s2")}, id, -1)
+			case 2:
+				emit("rpush", [][]byte{b(t.key("l")), val}, []string{t.key("l")}, id, -1)
+			default:
+				emit("hset", [][]byte{b(t.key("h")), b("f"), val}, []string{t.key("h")}, id, -1)
+			}
+		}
+		p.offTail = int64(len(st.Bytes))
+		p.bytes = int(p.offTail - p.offBig)
+		for i, n := 0, 5+r.Intn(10); i < n; i++ {
+			write(-1)
+		}
+		w.reset = p
 	}
 	if cc.Sched == refreshMidBuild {
 		// two tags of one node: the victim slot migrates, the other one stays
@@ -557,9 +618,14 @@ func errClass(err error) string {
 		return "break"
 	}
 	s := err.Error()
-	for _, w := range []string{"TRYAGAIN", "CROSSSLOT", "MOVED", "ASK", "EOF", "connection", "closed"} {
+	for _, w := range []string{"TRYAGAIN", "CROSSSLOT", "MOVED", "ASK"} {
 		if strings.Contains(s, w) {
 			return "other:" + w
+		}
+	}
+	for _, w := range []string{"connection reset", "broken pipe", "EOF", "connection", "closed"} {
+		if strings.Contains(s, w) {
+			return "other:connection"
 		}
 	}
 	return "other"
@@ -671,6 +737,10 @@ func oneCase(run *harness.Run, key string, idx int, r *rand.Rand, cc caseCfg) {
 	cfg.BatchTicker = cc.BatchTicker
 	cfg.KeepaliveTicker = cc.KeepAlive
 	cfg.UpdateCheckpointTicker = cc.CpTicker
+	if w.reset != nil {
+		cfg.BatchCmdCount = uint(w.reset.batchLen) // the big batch goes out in one flush
+		cfg.BatchBufferSize = 1 << 30
+	}
 
 	ctx := context.Background()
 	ss, err := drive.NewSession(cfg, ids)
@@ -729,6 +799,7 @@ func oneCase(run *harness.Run, key string, idx int, r *rand.Rand, cc caseCfg) {
 	cpAtEnd := make(chan struct{})
 	var cpOnce sync.Once
 	var part1Hook func(id string)
+	var resetArmed, resetFired atomic.Bool
 	// waitApplied returns a channel closed once every id of the set has been applied (to be
 	// called before the replay starts)
 	var hooks []func(id string)
@@ -818,6 +889,40 @@ func oneCase(run *harness.Run, key string, idx int, r *rand.Rand, cc caseCfg) {
 		plan = append(drive.Plan(r, st.Bytes[:cutOff], cc.PauseUnit, cc.PlanStyle),
 			drive.Step{Gate: gate})
 		plan = append(plan, drive.Plan(r, st.Bytes[cutOff:], cc.PauseUnit, cc.PlanStyle)...)
+	} else if p := w.reset; p != nil {
+		// part 1 | gate: the fault is armed | the big batch in one piece | tail.  The node executes
+		// k of the big commands, then closes the connection with the rest unread (the kernel
+		// answers the client's pending writes with RST); later connections are served normally.
+		before := map[string]bool{}
+		for _, x := range w.writes {
+			if st.Cmds[x.cmd].Start < p.offBig {
+				before[x.id] = true
+			}
+		}
+		part1 := waitApplied(before)
+		gate := make(chan struct{})
+		seen := 0
+		cl.Node(p.node).SetHooks(nil, nil, func(q *fakeredis.Req) bool {
+			// called with the node's lock held
+			if !resetArmed.Load() || len(q.Args) < 2 || len(q.Args[len(q.Args)-1]) < 32*1024 {
+				return false
+			}
+			seen++
+			if seen < p.k {
+				return false
+			}
+			resetArmed.Store(false)
+			resetFired.Store(true)
+			return true
+		})
+		go func() {
+			<-part1
+			resetArmed.Store(true)
+			close(gate)
+		}()
+		plan = append(drive.Plan(r, st.Bytes[:p.offBig], cc.PauseUnit, cc.PlanStyle), drive.Step{Gate: gate},
+			drive.Step{Data: st.Bytes[p.offBig:p.offTail]})
+		plan = append(plan, drive.Plan(r, st.Bytes[p.offTail:], cc.PauseUnit, cc.PlanStyle)...)
 	} else if m := w.mid; m != nil {
 		// part 1 | gate 1: victim slot migrates | trigger write | gate 2: the client's refresh is
 		// on its way and held back | victim batch in one piece | tail
@@ -1179,8 +1284,22 @@ func oneCase(run *harness.Run, key string, idx int, r *rand.Rand, cc caseCfg) {
 		}
 	}
 
+	if os.Getenv("C19_DEBUG") != "" && w.reset != nil {
+		per := map[string]int{}
+		var order []string
+		for _, q := range reqs {
+			if q.Node == w.reset.node {
+				k := fmt.Sprintf("conn%d", q.Conn)
+				if per[k] == 0 {
+					order = append(order, k)
+				}
+				per[k]++
+			}
+		}
+		fmt.Println("DEBUG", key, cc.String(), "k=", w.reset.k, "batch=", w.reset.batchLen, "bytes=", w.reset.bytes, "err=", oc.err, "conns:", order, per, "applied", nBiz)
+	}
 	// ---- coverage
-	fired := cc.Sched == "none" || len(cl.Events()) > 0 // at least one scripted change happened during the replay
+	fired := cc.Sched == "none" || len(cl.Events()) > 0 || resetFired.Load() // at least one scripted change / fault happened during the replay
 	oSig := oc.kind
 	if oc.kind == "error" {
 		oSig = "error:" + errClass(oc.err)
@@ -1204,6 +1323,13 @@ func oneCase(run *harness.Run, key string, idx int, r *rand.Rand, cc caseCfg) {
 	run.Seen("outcomes", oSig)
 	if !fired {
 		run.Count("runs_schedule_not_reached", 1)
+	}
+	if w.reset != nil {
+		run.Count("conn_reset_runs", 1)
+		run.Count("conn_reset_batch_bytes", int64(w.reset.bytes))
+		if resetFired.Load() {
+			run.Count("conn_reset_node_reset_the_connection_mid_batch", 1)
+		}
 	}
 	if w.mid != nil {
 		run.Count("refresh_mid_build_runs", 1)
